@@ -257,6 +257,7 @@ class Gen:
         self.owned = owner is not None
         self.sched = []
         self.base = []
+        self.allow_empty = True
 
     def fresh(self, kind):
         self.counter += 1
@@ -267,7 +268,10 @@ class Gen:
         self.counter += 1
         n = self.rng.choice([0, 3, 3, 8, 40, 1500, 3000]) if self.rng.random() < 0.3 else 6
         body = ("c%d-" % self.counter).encode()
-        return (body * (n // len(body) + 1))[:max(n, len(body))] if n else (b"" if self.rng.random() < 0.5 else body)
+        if n == 0:
+            # the empty file is not a unique token: only where no two-sided conflict can involve it
+            return b"" if (self.allow_empty and self.rng.random() < 0.5) else body
+        return (body * (n // len(body) + 1))[:max(n, len(body))]
 
     def abs(self, side, rel):
         return self.fl.roots[side].rstrip("/") + rel
